@@ -457,12 +457,19 @@ DOC_DEFAULTS = {
 }
 
 
+_FORM_CALLS = 0
+
+
 def reduce_kwargs(cls, kw):
     """Drop (deterministically, as a function of the arguments and VERIF_SEED) about half of the keyword arguments that
     equal the documented default of `cls`."""
     import random
     doc = DOC_DEFAULTS.get(getattr(cls, "__name__", str(cls)), {})
-    r = random.Random("%s|%r|%d" % (getattr(cls, "__name__", ""), sorted((k, repr(v)) for k, v in kw.items()), seed()))
+    # (the running number of the call enters as well: the same arguments are treated differently from call to call, in the
+    # same way in every run with the same seed)
+    global _FORM_CALLS
+    _FORM_CALLS += 1
+    r = random.Random("%s|%r|%d|%d" % (getattr(cls, "__name__", ""), sorted((k, repr(v)) for k, v in kw.items()), seed(), _FORM_CALLS))
     out = {}
     for k in kw:
         v = kw[k]
@@ -498,7 +505,7 @@ def mk(cls, **kw):
     kw = reduce_kwargs(cls, kw)
     order = DOC_ORDER.get(getattr(cls, "__name__", ""), [])
     pos = []
-    r = random.Random("pos|%s|%r|%d" % (getattr(cls, "__name__", ""), sorted((k, repr(v)) for k, v in kw.items()), seed()))
+    r = random.Random("pos|%s|%r|%d|%d" % (getattr(cls, "__name__", ""), sorted((k, repr(v)) for k, v in kw.items()), seed(), _FORM_CALLS))
     if order and r.random() < 0.35:
         for name in order:
             if name in kw:
